@@ -9,7 +9,7 @@ RULE = ("histories Init / Create slot (coroutine class -> frame size as the comp
         "without promise_extra_storage on top; boundary programs (equal size after warm-up, exact fit, one byte short, growth while other "
         "frames live) + random histories + a malformed stream; every case closed by finishing all frames and destroying the storage. "
         "st_mtc: 1-5 real threads on one reusable_storage_mtsafe under controlled schedules (random, bursty, last-first; thorough adds "
-        "every schedule of small configurations). non-trivial (sequential) = at least 3 frames created; (st_mtc) = at least 3 thread "
+        "every schedule of small configurations). non-trivial (sequential) = at least 3 frames created; (st_mtc/st_mtr) = at least 3 thread "
         "switches in the executed trace; distinct = distinct op list")
 SCOPE = ("default_storage, reusable_storage, reusable_storage_mtsafe (alloc/dealloc, _busy, trailer), stack_storage, placement_alloc, "
          "reusable_buffer_storage<std::vector>, promise_extra_storage<T,Base>, custom_allocator_base operator new/delete; "
@@ -46,7 +46,7 @@ def sizes():
 
 
 def close_case(c):
-    if c.engine == "st_mtc":
+    if c.engine in ("st_mtc", "st_mtr"):
         return c
     ops = [o for o in c.ops if o != [9]] if c.meta.get("strip_destroy") else list(c.ops)
     slots = []
@@ -148,9 +148,9 @@ def gen(seed, tier):
 
 
 # ---------------------------------------------------------------- st_mtc
-def mk_mt(name, progs, sched):
+def mk_mt(name, progs, sched, eng="st_mtc"):
     ops = [[2] + [v for a in p for v in a] for p in progs] + [[9] + list(sched)]
-    return Case("st_mtc", name, ops)
+    return Case(eng, name, ops)
 
 
 def gen_mt(seed, tier):
@@ -183,7 +183,27 @@ def gen_mt(seed, tier):
             sched = []
             while len(sched) < L: sched += [rng.randint(0, 5)] * rng.randint(1, 4)
         else: sched = [rng.choice([5, 4, 3, 0]) for _ in range(L)]
-        cases.append(mk_mt("m%d" % i, progs, sched))
+        cases.append(mk_mt("m%d" % i, progs, sched, "st_mtr" if i % 2 else "st_mtc"))
+    # aimed at the window inside reusable_storage::alloc (busy_n): a holder regrowing the block while other threads take and
+    # return heap blocks of exactly the size of the block just deleted; recycling allocator, random schedules
+    na = 350 if tier == "quick" else 4000
+    for i in range(na):
+        a = rng.randrange(0, len(ks) - 4); b = rng.randrange(a + 1, len(ks))
+        small, big = [order[a], tbl[order[a]]], [order[b], tbl[order[b]]]
+        F = [-1, 0]
+        nt = rng.choice([3, 3, 4])
+        progs = [[small, F, big] + ([F, small] if rng.random() < 0.5 else [])]
+        for t in range(nt - 1):
+            p = []
+            for _ in range(rng.randint(1, 3)):
+                p += [small if rng.random() < 0.8 else big, F] if rng.random() < 0.7 else [small, small, F, F]
+            progs.append(p)
+        L = rng.choice([10, 16, 24, 32])
+        if rng.random() < 0.5: sched = [rng.randint(0, 5) for _ in range(L)]
+        else:
+            sched = []
+            while len(sched) < L: sched += [rng.randint(0, 5)] * rng.randint(1, 3)
+        cases.append(mk_mt("a%d" % i, progs, sched, "st_mtr"))
     # systematic: every schedule of small two- and three-thread configurations
     k0, k1, k2 = ks[3], ks[10], ks[16]
     C = lambda k: [order[k], tbl[order[k]]]
@@ -195,12 +215,12 @@ def gen_mt(seed, tier):
     for progs, width, depth in cfgs:
         if not depth: continue
         for pre in itertools.product(range(width), repeat=depth):
-            cases.append(mk_mt("x%d" % j, progs, pre)); j += 1
+            cases.append(mk_mt("x%d" % j, progs, pre, "st_mtr" if j % 2 else "st_mtc")); j += 1
     return cases
 
 
 def nontrivial(case, model_obs):
-    if case.engine == "st_mtc":
+    if case.engine in ("st_mtc", "st_mtr"):
         tids = [l.split()[0] for l in model_obs if len(l.split()) == 2]
         return sum(1 for a, b in zip(tids, tids[1:]) if a != b) >= 3
     creates = 0
